@@ -68,3 +68,32 @@ def D12(key, payload):
 
 def D32(key, payload):
     return "D32-shape" in (payload.get("tags") or [])
+
+
+def D17(key, payload):
+    tags = payload.get("tags") or []
+    return "D17-literals" in tags or "D17-names" in tags
+
+
+def D21(key, payload):
+    return "D21-shape" in (payload.get("tags") or [])
+
+
+def D20(key, payload):
+    return "D20-shape" in (payload.get("tags") or [])
+
+
+def D26(key, payload):
+    return "D26-shape" in (payload.get("tags") or [])
+
+
+def D15(key, payload):
+    return "D15-shape" in (payload.get("tags") or []) and "does not resolve" in str(payload.get("what", ""))
+
+
+def D28(key, payload):
+    return "D28-shape" in (payload.get("tags") or [])
+
+
+def D30(key, payload):
+    return "D30-shape" in (payload.get("tags") or [])
